@@ -14,6 +14,8 @@
           id = <n> (node id "node-%05d") or s:<dotted bytes> / s:e (the id string itself)
    ops:   st<w> sd<w> dl<w>:<i> dr<w>:<i> pl<w> pt<w> dn<w>:<k> up<w>:<k> de<w>:<k> sw<w>:<f> rs<w> SW<w>:<f>
           (w = 0 for node A, 1 for node B; SW = local switchover + delivered RPC = sw<w>:<f> then rs<other>)
+          tk<w>:<bits>  one checkPeerTimeout tick (Timer.v): bit 0 connected, 1 start-up timeout expired, 2 heartbeat
+                   too old, 3 skew refused; expands to tick_calls many EPeerLost (any WAITING group counts)
           overlap: pD<w>:<i> start handling heartbeat i, park it in the publication of ->READY (if any)
                    pL<w>     start handlePeerLost, park it between its m.mu section and sm.PeerLost
                    pS<w>     start handlePeerLost, park it in the publication of the PeerLost transition (if any)
@@ -152,6 +154,12 @@ let () =
                 if a < 100 then e1 (EIf (w, nat_of_int a, d)) else e2 (EIf (w, nat_of_int (a - 100), d))
               | "S1" -> e1 (ESwLocal (w, a = 1)); e1 (ESwRemote (other w))
               | "S2" -> e2 (ESwLocal (w, a = 1)); e2 (ESwRemote (other w))
+              | "tk" ->
+                let i st other = { t_conn = a land 1 <> 0; t_upexp = a land 2 <> 0; t_hbold = a land 4 <> 0;
+                                   t_skew = a land 8 <> 0; t_otherw = other } in
+                let stw p = (match w with A -> p.p_a.n_st | B -> p.p_b.n_st) in
+                let k = int_of_nat (tick_calls (i () (stw !s2 = Waiting)) (stw !s1)) in
+                for _ = 1 to k do note (EPeerLost w); e1 (EPeerLost w); e2 (EPeerLost w); resync () done
               | "pD" | "pL" | "pS" | "rl" | "xa" | "xu" -> failwith "op not supported with two groups"
               | _ -> List.iter (fun e -> note e; e1 e; e2 e; resync ()) (events_of_token tok));
              out := (show !s1 !t1 ^ "#" ^ show !s2 !t2) :: !out) ops;
@@ -206,6 +214,13 @@ let () =
              note (EPeerLost w);
              ignore (fe (FLost w)); ignore (fe (FMicro (w, O)));
              let t = fe (FMicro (w, O)) in if t = [] then finish w
+           | "tk" ->
+             let a = arg tok in
+             let i = { t_conn = a land 1 <> 0; t_upexp = a land 2 <> 0; t_hbold = a land 4 <> 0;
+                       t_skew = a land 8 <> 0; t_otherw = false } in
+             List.iter (fun e ->
+                 let (e', tt) = sdecide sf !stl !s.f_p e in
+                 ignore (fe (FCoarse e')); stl := ssync tt !s.f_p) (tick_events w i !s.f_p)
            | "rl" -> note (ESend w); finish w
            | "xa" | "xu" ->
              (* lock probe: is m.mu held when AdjustPriority is entered (only asked for tracked interfaces) *)
